@@ -528,6 +528,8 @@ func (gen *generator) irFuncHeader(new *ir.Func, old ast.FuncHeader) error {
 	ps := old.Params()
 	if oldParams := ps.Params(); len(oldParams) > 0 {
 		new.Params = make([]*ir.Param, len(oldParams))
+		// nextID is the ID of the next unnamed parameter.
+		nextID := int64(0)
 		for i, oldParam := range oldParams {
 			// Type.
 			typ, err := gen.irType(oldParam.Typ())
@@ -539,6 +541,14 @@ func (gen *generator) irFuncHeader(new *ir.Func, old ast.FuncHeader) error {
 			if n, ok := oldParam.Name(); ok {
 				ident := localIdent(n)
 				param.LocalIdent = ident
+				// Validate explicit parameter ID (an explicit ID 0 is
+				// indistinguishable from no ID once stored in the parameter).
+				if ident.IsUnnamed() && ident.LocalID != nextID {
+					return errors.Errorf("invalid local ID in function %q, expected %s, got %s", new.Ident(), enc.LocalID(nextID), enc.LocalID(ident.LocalID))
+				}
+			}
+			if param.IsUnnamed() {
+				nextID++
 			}
 			// (optional) Parameter attributes.
 			if oldParamAttrs := oldParam.Attrs(); len(oldParamAttrs) > 0 {
